@@ -128,7 +128,7 @@ class CrudProfile(StoreProfile):
             return {"op": "create", "cfg": cfg, "sid": alpha[n], "data": data, "obj": rng.random() < 0.3}
         how = "set" if r < 0.7 else "update"
         return {"op": "write", "cfg": cfg, "sid": alpha[n], "how": how, "obj": rng.random() < 0.3,
-                "data": gen_data(rng, nmax=2, keys=["comment", "frames", "ok"])}
+                "data": gen_data(rng, nmax=2, keys=["comment", "frames", "ok"], big=rng.random() < 0.04)}
 
     # ------------------------------------------------------------------ execution
     def apply(self, run, step):
